@@ -20,6 +20,15 @@
                                               kind = inner|left|right|full; U = `k c_1…c_k` (USING) or `natural`;
                                               in e / cond the join columns are written without a table (`$c`: the merged
                                               column, the preserved side's value or — where that is NULL — the other's)
+    c05.updatet nt T… <tree> n (view field e)* cond   UPDATE T… SET … FROM <tree> WHERE cond over a join TREE of any depth
+    c05.deletet nt T… <tree> cond             DELETE T… FROM <tree> WHERE cond
+                                              <tree> (prefix) = `T name` (updatable table, loaded with internal ids) |
+                                              `S alias src` (a source WITHOUT internal ids — sub-query / inline table — with the
+                                              records of table src) | `X l r` (comma, CROSS JOIN) | `O dir on l r` (JOIN … ON) |
+                                              `U dir k c_1…c_k l r` (USING) | `N dir l r` (NATURAL); dir = inner|left|right|full;
+                                              column references `$c` / `$t.c` are resolved in the header the MODEL computes for
+                                              the joined view (Header.FieldIndex: merged columns have no table and win over
+                                              equally named columns); SET view `-` = column written without a table
     c05.addcol N pos n (name 0 | name 1 e)*   ALTER TABLE N ADD (…) pos;  pos = first|last|before:c|after:c
     c05.dropcol N n col…   c05.rename N old new   c05.create N n col…
     c05.createas N n col… src k e_1…e_k cond   CREATE TABLE N (cols) AS SELECT e… FROM src WHERE cond
@@ -45,6 +54,7 @@
 import Csvq.Model.Proto
 import Csvq.Model.Sort
 import Csvq.Model.Dml
+import Csvq.Model.JoinTree
 import Csvq.Model.CopySites
 namespace Csvq.Drive.C05
 open Csvq Csvq.Proto Csvq.Dml
@@ -375,6 +385,72 @@ def headerOf (ts : Tables) (n : String) : List String :=
   | none => []
   | some t => t.header
 
+/-! ### join trees (Model/JoinTree) -/
+
+/-- two pseudo tables sharing one column: an unqualified reference to it is ambiguous -/
+def ambCtx : Ctx := [("?a", ["?amb"], [nullCell]), ("?b", ["?amb"], [nullCell])]
+
+/-- the column references of an expression, looked up in the header of the joined view (Header.FieldIndex) and replaced by
+    the cell of the record; a reference that does not resolve is replaced by one that fails in the same way WHEN evaluated -/
+def bindCols (h : List HField) (jr : JRow) : Ex → Ex
+  | .lit c => .lit c
+  | .col t n =>
+    match searchIdx h (t.getD "") n with
+    | .ok k => .lit (cellAtField h k jr)
+    | .error .fieldAmbiguous => .col none "?amb"
+    | .error _ => .col (some "?none") n
+  | .arith op a b => .arith op (bindCols h jr a) (bindCols h jr b)
+  | .cmp op a b => .cmp op (bindCols h jr a) (bindCols h jr b)
+  | .and a b => .and (bindCols h jr a) (bindCols h jr b)
+  | .or a b => .or (bindCols h jr a) (bindCols h jr b)
+  | .not a => .not (bindCols h jr a)
+  | .isNull a => .isNull (bindCols h jr a)
+  | .cell tbl col k => .cell tbl col (bindCols h jr k)
+
+def condT' (ts : Tables) (e : Ex) : List HField → JRow → Except Err Tern :=
+  fun h jr => evalCond ts ambCtx (bindCols h jr e)
+
+def parseTree (ts : Tables) : Nat → List String → Option (Tree × List String)
+  | 0, _ => none
+  | _, [] => none
+  | fuel + 1, tok :: rest =>
+    let two (spec : JoinSpec) (r0 : List String) : Option (Tree × List String) :=
+      match parseTree ts fuel r0 with
+      | none => none
+      | some (l, r1) =>
+        match parseTree ts fuel r1 with
+        | none => none
+        | some (r, r2) => some (.join l r spec, r2)
+    match tok, rest with
+    | "T", n :: r0 => some (.leaf (.table n), r0)
+    | "S", a :: src :: r0 => some (.leaf (.inline a src), r0)
+    | "X", r0 => two .cross r0
+    | "O", d :: r0 =>
+      match parseKind d, pEx r0 with
+      | some dir, some (on, r1) => two (.on dir (condT' ts on)) r1
+      | _, _ => none
+    | "U", d :: r0 =>
+      match parseKind d, takeN r0 with
+      | some dir, some (U, r1) => two (.using dir (some U)) r1
+      | _, _ => none
+    | "N", d :: r0 =>
+      match parseKind d with
+      | some dir => two (.using dir none) r0
+      | none => none
+    | _, _ => none
+
+/-- every updatable table of the FROM clause (and the targets), once: all of them are read back after the statement -/
+def treeTables (tree : Tree) (targets : List String) : List String :=
+  (tree.leaves.filterMap id ++ targets).foldl (fun acc n => if n ∈ acc then acc else acc ++ [n]) []
+
+def parseSetsT : Nat → List String → Option (List (String × String × Ex) × List String)
+  | 0, toks => some ([], toks)
+  | k + 1, t :: f :: rest =>
+    match pEx rest with
+    | none => none
+    | some (e, r) => (parseSetsT k r).map fun p => (((if t = "-" then "" else t), f, e) :: p.1, p.2)
+  | _, _ => none
+
 /-! ### one operation -/
 
 def runStmt (s : State) (st : Stmt) (targets : List String) : State × String :=
@@ -637,6 +713,38 @@ def step (s : State) (cmd : String) (args : List String) : State × String :=
         | _ => bad
       | _, _ => bad
     | _ => bad
+  | "updatet", rest =>
+    match takeN rest with
+    | none => bad
+    | some (targets, r1) =>
+      match parseTree s.tables (r1.length + 1) r1 with
+      | some (tree, k :: r2) =>
+        match k.toNat? with
+        | none => bad
+        | some k =>
+          match parseSetsT k r2 with
+          | none => bad
+          | some (sets, r3) =>
+            match pEx r3 with
+            | some (cond, []) =>
+              let r := publishBody s (updateTreeBody s.tables eqvCell targets tree (condT' s.tables cond)
+                (sets.map fun p => { view := p.1, field := p.2.1,
+                                     expr := fun h jr => eval s.tables ambCtx (bindCols h jr p.2.2) }))
+              (r.1, showResult r.1 r.2 (treeTables tree targets))
+            | _ => bad
+      | _ => bad
+  | "deletet", rest =>
+    match takeN rest with
+    | none => bad
+    | some (targets, r1) =>
+      match parseTree s.tables (r1.length + 1) r1 with
+      | some (tree, r2) =>
+        match pEx r2 with
+        | some (cond, []) =>
+          let r := publishBody s (deleteTreeBody s.tables eqvCell targets tree (condT' s.tables cond))
+          (r.1, showResult r.1 r.2 (treeTables tree targets))
+        | _ => bad
+      | none => bad
   | "addcol", n :: pos :: k :: rest =>
     match parsePos pos, k.toNat? with
     | some pos, some k =>
